@@ -594,14 +594,26 @@ def r8_loop(ctx, prog, m):
     fn = norm(lp.iter.func) if isinstance(lp.iter, ast.Call) and \
         m.domain is None else None
     if fn == "range":
-        a = lp.iter.args
-        ok = len(a) == 1 and norm(a[0]) == m.nlab or (
-            len(a) == 2 and norm(a[0]) == "0" and norm(a[1]) == m.nlab)
+        ok = m.label_off is not None
         ctx.check("C02-R8", fi, "island loop " + norm(lp.iter), ok,
                   "the loop must visit all %s labelled groups (labels are "
-                  "1..%s, the loop index 0..%s-1); found %s: the remaining "
+                  "1..%s: range(%s) with label = index + 1, or range(1, %s "
+                  "+ 1) with label = index); found %s: the remaining "
                   "groups are never reported" % (m.nlab, m.nlab, m.nlab,
-                                                 norm(lp.iter)), node=lp)
+                                                 m.nlab, norm(lp.iter)),
+                  node=lp)
+        # the find_objects slice of label L is boxes[L - 1]
+        want = m.ivar if m.label_off == 1 else m.ivar + "-1"
+        subs = [x for x in ast.walk(lp) if isinstance(x, ast.Subscript)
+                and m.boxes and norm(x.value) == m.boxes]
+        for x in subs:
+            ctx.check("C02-R8", fi, "slice of the visited label " + norm(x),
+                      norm(x.slice).replace(" ", "") == want,
+                      "find_objects returns the slice of label L at index "
+                      "L - 1: with this loop the slice must be %s[%s]; "
+                      "found %s (the pixels of one group are cut out with "
+                      "the box of another)" % (m.boxes, want, norm(x)),
+                      node=x)
     elif m.domain is not None:
         d = m.domain
         ctx.check("C02-R8", fi, "pre-selected island loop " + norm(lp.iter),
